@@ -197,7 +197,7 @@ def table_db(rng):
     for c in cols:
         for r in rows:
             if rng.random() < 0.85:
-                db[tuple(entry + [c] + list(r))] = rng.choice(O.ALL_VALUES)
+                db[tuple(entry + [c] + list(r))] = rng.choice(O.ALL_VALUES + [["oid", []]])
     if rng.random() < 0.7:
         db[tuple(base[:-1] + [base[-1] - 1, 0])] = rng.choice(O.ALL_VALUES)
     if rng.random() < 0.7:
@@ -215,6 +215,10 @@ def gen_case(rng, i):
         args = {"oid": entry if method == "table" else base, "size": rng.choice([1, 2, 5, 10])}
         return method, db, args
     db = O.random_db(rng, rng.randint(1, 10))
+    if rng.random() < 0.3:
+        # a value that is falsy as an x690 object: the zero-length OBJECT IDENTIFIER (06 00)
+        k = rng.randrange(len(db))
+        db[k] = (db[k][0], ["oid", []])
     keys = [list(o) for o, _ in db]
     if method in ("get", "getnext"):
         oid = rng.choice(keys)
